@@ -71,9 +71,17 @@ def l0(ctx):
             obs.append(ctx.ob(ok, fi.qualname, where(fi, w), "FileLocked -> LockedError", "a held lock is reported as LockedError",
                               "FileLocked raised by locked_index is not translated to LockedError in %s" % fi.short))
     # the index is read only after the lock file has been taken
-    li = ctx.P.cls("xandikos.store.git.locked_index")
+    GITQ = "xandikos.store.git.locked_index"
+    if GITQ in ctx.P.classes:
+        lock_funcs = list(ctx.P.cls(GITQ).methods.values())
+        enter_name = "__enter__"
+    elif ctx.P.has_func(GITQ) and {"contextmanager", "contextlib.contextmanager"} & set(ctx.func(GITQ).decorators):
+        lock_funcs = [ctx.func(GITQ)]          # the same context manager written as a generator
+        enter_name = "locked_index"
+    else:
+        raise AnalysisError("class xandikos.store.git.locked_index not found")
     reads = []
-    for mname, m in li.methods.items():
+    for m in lock_funcs:
         cfgm = ctx.cfg(m)
         for n in cfgm.stmt_nodes():
             for c in n.calls():
@@ -85,7 +93,11 @@ def l0(ctx):
     for m, n in reads:
         cfgm = ctx.cfg(m)
         locks = [x for x in cfgm.stmt_nodes() for c in x.calls() if (dotted(c.func) or "").split(".")[-1] == "GitFile"]
-        ok = m.name == "__enter__" and bool(locks) and cfgm.normal_completion_dominates(locks, n)
+        ok = m.name == enter_name and bool(locks) and cfgm.normal_completion_dominates(locks, n)
+        if ok and enter_name != "__enter__":
+            # generator form: the read must also precede the yield (it is part of entering)
+            ys_ = [y for y in cfgm.stmt_nodes() if y.kind == "stmt" and isinstance(y.ast, ast.Expr) and isinstance(y.ast.value, ast.Yield)]
+            ok = bool(ys_) and all(cfgm.normal_completion_dominates([n], y) for y in ys_)
         obs.append(ctx.ob(ok, m.qualname, where(m, n), "index is read after the lock file is taken",
                           "`%s` follows GitFile(path, 'wb') in __enter__" % node_desc(n),
                           "`%s` in locked_index.%s reads the index before (or without) taking <index>.lock: a writer that is preempted between "
